@@ -145,7 +145,33 @@ class Inliner:
             ua = _unwrap(a)
             plain = isinstance(ua, dict) and ((ua.get('k') == 'ref' and ua.get('rk') in ('local', 'param') and
                                                ((ua.get('rk'), ua.get('id')) not in byref_roots or t.get('k') == 'ptr')) or 'cv' in ua or ua.get('k') == 'lit')
-            if t.get('k') == 'ref' or p['id'] in alias_params:
+            stable_addr = False
+            if t.get('k') == 'ptr' and p['id'] not in written and _pure(a):
+                # a pointer parameter the helper never re-aims, bound to an address that cannot change while it runs: the address of a
+                # member / constant-index element of an object named by `this`, a parameter or a local (array decay included)
+                x_ = a
+                ok_ = True
+                while isinstance(x_, dict):
+                    k_ = x_.get('k')
+                    if k_ in ('cast', 'load', 'paren'):
+                        x_ = x_.get('e')
+                    elif k_ == 'un' and x_.get('op') == '&':
+                        x_ = x_.get('e')
+                    elif k_ == 'member' and not x_.get('arrow'):
+                        x_ = x_.get('base')
+                    elif k_ == 'member' and x_.get('arrow') and _unwrap(x_.get('base')).get('k') == 'this':
+                        x_ = None
+                        break
+                    elif k_ == 'index' and 'cv' in (_unwrap(x_.get('idx')) or {}):
+                        x_ = x_.get('base')
+                    elif k_ == 'this' or (k_ == 'ref' and x_.get('rk') in ('param',) and (x_.get('t') or {}).get('k') == 'ref'):
+                        x_ = None
+                        break
+                    else:
+                        ok_ = False
+                        break
+                stable_addr = ok_ and x_ is None
+            if t.get('k') == 'ref' or p['id'] in alias_params or stable_addr:
                 refsub[p['id']] = a
             elif p['id'] not in written and plain and t.get('k') != 'ptr' or (p['id'] not in written and plain and t.get('k') == 'ptr' and ua.get('k') == 'ref'):
                 refsub[p['id']] = a
@@ -289,8 +315,38 @@ class Inliner:
         new_stmt = _copy(stmt, repl)
         return pre + stmts[:-1] + [new_stmt]
 
+    def inline_predicates(self, f):
+        """calls, anywhere in an expression, to a NEW function whose whole body is `return E;` (or a chain `if (c) return A; ... return E;`,
+        possibly after `const bool x = ...;`) are replaced by that expression over the (side-effect free) arguments"""
+        from .cfg import CFG as _CFG, subst_params
+
+        def fix(nd):
+            if nd.get('k') != 'call':
+                return None
+            cal = self.eligible(nd, f)
+            if cal is None or (cal.get('ret') or {}).get('k') in (None, 'void'):
+                return None
+            body = cal['body']
+            stmts = body.get('body', []) if body.get('k') == 'compound' else [body]
+            rex = _CFG._return_expr(stmts)
+            if rex is None:
+                return None
+            params = cal.get('params', [])
+            if any((p.get('t') or {}).get('k') not in ('ref', 'ptr', 'int', 'bool', 'enum') for p in params):
+                return None
+            # a parameter used more than once must be bound to something cheap and stable: any pure argument is (it is re-read, not re-run)
+            self._changed = True
+            self.sites.append((f['qn'], cal['qn'], nd.get('l')))
+            return subst_params(rex, {p['id']: a for p, a in zip(params, nd.get('args', []))})
+        for _ in range(3):
+            self._changed = False
+            f['body'] = _copy(f['body'], fix)
+            if not self._changed:
+                break
+
     # ---- rewriting a function body
     def rewrite_fn(self, f):
+        self.inline_predicates(f)
         names = {p.get('name') for p in f.get('params', [])}
         for x in walk(f['body']):
             if isinstance(x, dict) and x.get('k') == 'decl':
@@ -322,6 +378,17 @@ class Inliner:
                         self._changed = True
                         self.sites.append((f['qn'], cal['qn'], s.get('l')))
                         return [r]
+        if k == 'return' and s.get('e') is not None:
+            # `return helper(args);`: the helper's returns ARE the caller's returns
+            e = _unwrap(s.get('e'))
+            if isinstance(e, dict) and e.get('k') == 'call':
+                cal = self.eligible(e, f)
+                if cal is not None and (cal.get('ret') or {}).get('k') not in (None, 'void') and self.returns(cal['body']):
+                    pre, body = self.instantiate(e, cal, names)
+                    stmts = list(body.get('body', [])) if body.get('k') == 'compound' else [body]
+                    self._changed = True
+                    self.sites.append((f['qn'], cal['qn'], s.get('l')))
+                    return pre + stmts
         if k in ('expr', 'decl'):
             calls = [x for x in walk(s) if isinstance(x, dict) and x.get('k') == 'call']
             if len(calls) == 1:
@@ -566,6 +633,12 @@ class NewNames:
 BOOL_T = {'k': 'bool', 'size': 1, 's': 'bool'}
 
 
+def _pure_calls_ok(e):
+    """no assignment / increment / closure inside (calls are allowed: the expression is evaluated at the same point, once per iteration)"""
+    return not any(isinstance(x, dict) and (x.get('k') in ('assign', 'lcall', 'lambda') or (x.get('k') == 'un' and x.get('op') in ('++', '--')))
+                   for x in walk(e))
+
+
 class LoopForms:
     """Two loop forms the tree the tables were written for does not contain are rewritten into the ones it does:
       *  `for (;;) { B; if (c) break; }` / `while (true) {...}`  (one break, last statement, no continue)   ->  `do { B } while (!c);`
@@ -595,12 +668,43 @@ class LoopForms:
         for key in ('body', 'then', 'else', 'taken'):
             if isinstance(s.get(key), (dict, list)) and k in ('compound', 'if', 'constexpr_if', 'for', 'while', 'do'):
                 out[key] = self._stmt(s[key])
+        if k == 'do':
+            r = self._flag_condition(out)
+            if r is not None:
+                return r
         if k in ('for', 'while'):
             out = self._leading_break(out)
             r = self._infinite(out) or self._call_init(out) or self._no_init(out)
             if r is not None:
                 return r
         return out
+
+    def _flag_condition(self, s):
+        """`do { B; x = E; } while (x)` / `while (!x)` with x a boolean local mentioned nowhere else (but its declaration): the condition
+        is E"""
+        body = s.get('body') or {}
+        stmts = list(body.get('body', [])) if body.get('k') == 'compound' else [body]
+        if not stmts or stmts[-1].get('k') != 'expr':
+            return None
+        a = _unwrap(stmts[-1].get('e'))
+        if not (isinstance(a, dict) and a.get('k') == 'assign' and a.get('op') == '='):
+            return None
+        x = _unwrap(a.get('lhs'))
+        if not (isinstance(x, dict) and x.get('k') == 'ref' and x.get('rk') == 'local' and (x.get('t') or {}).get('k') == 'bool'):
+            return None
+        uses = [y for y in walk(self.f['body']) if isinstance(y, dict) and y.get('k') == 'ref' and y.get('rk') == 'local' and y.get('id') == x['id']]
+        cond_uses = [y for y in walk(s.get('c')) if isinstance(y, dict) and y.get('k') == 'ref' and y.get('rk') == 'local' and y.get('id') == x['id']]
+        if len(uses) != len(cond_uses) + 1 or not cond_uses or not _pure_calls_ok(a.get('rhs')):
+            return None
+
+        def repl(n_):
+            if n_.get('k') == 'load' and isinstance(n_.get('e'), dict) and n_['e'].get('k') == 'ref' and n_['e'].get('id') == x['id']:
+                return a['rhs']
+            if n_.get('k') == 'ref' and n_.get('rk') == 'local' and n_.get('id') == x['id']:
+                return a['rhs']
+            return None
+        self.sites.append((self.f['qn'], 'loop condition through a flag assigned at the end of the body', s.get('l')))
+        return dict(s, c=_copy(s['c'], repl), body={'k': 'compound', 'l': body.get('l'), 'body': stmts[:-1]})
 
     def _leading_break(self, s):
         """`LOOP (c1) { if (c2) break; REST }`  ->  `LOOP (c1 && !c2) { REST }`  (leaving before anything ran is not entering)"""
@@ -634,6 +738,15 @@ class LoopForms:
         self.sites.append((self.f['qn'], 'for without initialiser', s.get('l')))
         return {'k': 'while', 'l': s.get('l'), 'c': s['c'], 'body': {'k': 'compound', 'l': s.get('l'), 'body': stmts}}
 
+    def _is_last_statement(self, s):
+        """s is (by location) the last top-level statement of a void function"""
+        if (self.f.get('ret') or {}).get('k') != 'void':
+            return False
+        body = self.f['body']
+        top = list(body.get('body', [])) if body.get('k') == 'compound' else [body]
+        top = [x for x in top if isinstance(x, dict) and x.get('k') != 'null']
+        return bool(top) and top[-1].get('l') == s.get('l') and top[-1].get('k') == s.get('k')
+
     @staticmethod
     def _true(c):
         if c is None:
@@ -650,14 +763,33 @@ class LoopForms:
         stmts = list(body.get('body', [])) if body.get('k') == 'compound' else [body]
         if not stmts:
             return None
+        # exit test at the HEAD: `for (;;) { if (c) break;  REST }`  (or `return;` at the very end of a void function)  ->  `while (!c) { REST }`
+        first = stmts[0]
+        if isinstance(first, dict) and first.get('k') == 'if' and first.get('else') is None and len(stmts) > 1:
+            th0 = first.get('then') or {}
+            tb0 = th0.get('body', []) if th0.get('k') == 'compound' else [th0]
+            brk0 = len(tb0) == 1 and tb0[0].get('k') == 'break'
+            ret0 = len(tb0) == 1 and tb0[0].get('k') == 'return' and tb0[0].get('e') is None and self._is_last_statement(s)
+            rest0 = stmts[1:]
+            clean = not any(isinstance(x, dict) and ((x.get('k') == 'break' and not self._in_inner_loop(h, x)) or x.get('k') == 'return')
+                            for h in rest0 for x in walk(h))
+            if (brk0 or ret0) and clean:
+                cond0 = {'k': 'un', 'op': '!', 'e': first['c'], 't': BOOL_T, 'l': first.get('l')}
+                self.sites.append((self.f['qn'], 'infinite loop with the exit test at its head', s.get('l')))
+                return {'k': 'while', 'l': s.get('l'), 'c': cond0, 'body': {'k': 'compound', 'l': body.get('l'), 'body': rest0}}
         last = stmts[-1]
         if not (isinstance(last, dict) and last.get('k') == 'if' and last.get('else') is None):
             return None
         th = last.get('then') or {}
         tb = th.get('body', []) if th.get('k') == 'compound' else [th]
-        if len(tb) != 1 or tb[0].get('k') != 'break':
+        is_break = len(tb) == 1 and tb[0].get('k') == 'break'
+        # `return;` does what `break` does when the loop is the last statement of a void function
+        is_tail_return = len(tb) == 1 and tb[0].get('k') == 'return' and tb[0].get('e') is None and self._is_last_statement(s)
+        if not (is_break or is_tail_return):
             return None
         head = stmts[:-1]
+        if is_tail_return and any(isinstance(x, dict) and x.get('k') == 'return' for h in head for x in walk(h)):
+            return None
         if any(isinstance(x, dict) and x.get('k') in ('break', 'continue') for h in head for x in walk(h)
                if not self._in_inner_loop(h, x)):
             return None
